@@ -28,7 +28,7 @@ CLAIMED = {
     ),
     "C02": (
         "exploration",
-        "complete enumeration of all 450 shipped (method, degree, size) grids x every real spherical harmonic (l,m), l<=degree, against an independent float64 harmonic recursion (self-validated against a multiprecision definition)",
+        "complete enumeration of all 450 shipped (method, degree, size) grids x every real spherical harmonic (l,m), l<=degree, against an independent float64 harmonic recursion (self-validated against a multiprecision definition); for every grid seven further documented ways of constructing it (by size, through the cache first / second time, other spellings of the method name, uncached after cached) must give the identical arrays",
         "The space is finite: thorough enumerates it completely (9.1e6 moments = 2.5e11 point-harmonic evaluations, 2 min on 16 cores); quick takes every grid, all l for grids below a cost cap and l<=30 for the largest, and reports the cap.",
         "Trusts the float64 recursion oracle (start-up self-test vs mpmath definition, Cartesian closed forms, addition theorem to l=330) and treats 1e-10*sqrt(4pi) as data rounding noise.",
         "DESIGN.md 3/C02",
@@ -36,20 +36,20 @@ CLAIMED = {
     "C19": (
         "model_checking",
         "explicit-state breadth-first exploration of API-call histories on the real library objects (angular caches / inferred transform scale / Coulomb table), canonical state keys, fresh world per history, invariant + differential oracle after every transition, determinism validated by double and fresh-interpreter replays",
-        "Every call history over the stated alphabet up to the depth bound is executed on the implementation itself (quick: depth 3 for the main angular-cache world, about 1.2e3 canonical states / 5e3 transitions; thorough: depth 5); after each transition every (method, degree) of the alphabet is probed against the shipped data and every object is compared with a fresh world. This is a coverage statement within the bound, not a sample.",
+        "Every call history over the stated alphabet up to the depth bound is executed on the implementation itself (quick: depth 3 for every pair of methods, 5.6e3 canonical states / 2.3e4 transitions; thorough: depth 5 for the main pair); after each transition every (method, degree) of the alphabet is probed against the shipped data and every object is compared with a fresh world. This is a coverage statement within the bound, not a sample.",
         "Trusts the reset of the module caches (validated against a spawned interpreter), the canonical keys (soundness argument in vf/props/c19.py), np.load of the data files. Alphabet: 2 methods x 2 degrees per run (all four methods over the runs), edits are '*= 2' in place.",
         "DESIGN.md 3/C19",
     ),
     "C10": (
         "model_checking",
-        "explicit-state breadth-first exploration of histories of local-grid queries and points/weights reassignments on one live instance per grid kind (12 kinds), brute-force distance filter on the reference model's current arrays after every query; complete product grid kind x index kind for selection",
-        "Per grid kind the reachable abstract state space (points version x weights version x which array the lazy tree indexes) is small and is exhausted within the depth bound (quick 4, thorough 5: all 204 canonical states, about 3.8e3 transitions, every transition executed on the real object); selection is a complete 10 x 27 product.",
+        "explicit-state breadth-first exploration of histories of local-grid queries and points/weights reassignments on one live instance per grid kind (16 kinds), plus a second exploration per kind with the event 'the caller edits the local grid it was handed last, in place' and a query centre 1e-7 from another, brute-force distance filter on the reference model's current arrays after every query; complete product grid kind x index kind for selection; points exactly on the sphere (integer coordinates) for six classes x six radii x argument forms of centre and radius; selection attempts on the classes without selection",
+        "Per grid kind the reachable abstract state space (points version x weights version x which array the lazy tree indexes) is small and is exhausted within the depth bound (quick 4, thorough 5: 1.6e3 canonical states, 2.0e4 transitions in the quick tier, every transition executed on the real object); selection is a complete 10 x 27 product.",
         "Reassignment = the points/weights setters. Boundary ties within 1e-12*(1+r) are excluded. radius=inf on PeriodicGrid belongs to C11. Trusts cKDTree only through the brute-force comparison.",
         "DESIGN.md 3/C10",
     ),
     "C03": (
         "exploration",
-        "complete product of transform class x parameter alphabet x interior lattice points x call form (array, length-1 array, NumPy scalar), each compared with a multiprecision evaluation of the docstring formula and its mp.diff derivatives; inverse derivatives via the inverse-function identities on the oracle's derivatives",
+        "complete product of transform class x parameter alphabet x interior lattice points x call form (array, length-1 array, NumPy scalar), each compared with a multiprecision evaluation of the docstring formula and its mp.diff derivatives; inverse derivatives via the inverse-function identities on the oracle's derivatives; NumPy-scalar form at the reference end points; all ordered pairs of methods on one instance with one work array refilled in place between the calls (history of length 2) against a fresh instance",
         "Every discrete combination of the alphabets (472 configurations incl. the Inverse wrapper of each, 10 points, 8 methods, about 6.6e4 comparisons) is enumerated, so every branch/term of every hand-derived formula is exercised for integer and non-integer k and m, three rmin/R/rmax values and both trimming modes; VERIF_SEED moves the real-valued representatives inside small boxes. It is a decision on the lattice, argued (not proved) to generalise because a wrong rational/elementary closed form cannot agree with the true one on this many points.",
         "mpmath at 40 digits is exact for this purpose; relative tolerance 2e-9 at interior points, 5e-2 at |x|>0.95 where r-rmin / 1-exp(-t) cancel in floating point; image-argument methods are referred to the exact pre-image of the float64 argument.",
         "DESIGN.md 3/C03",
@@ -63,100 +63,100 @@ CLAIMED = {
     ),
     "C01": (
         "exploration",
-        "complete product of 26 rule classes x every n (both parities; quick 1..41, thorough 1..128, plus -1/0/1 and even n for odd-only rules) x extra-parameter alphabets x every polynomial degree 0..nominal, against exact moments and multiprecision re-typed closed-form definitions (weights = step x mp.diff of the node map; g'(x_i) w_i for the Trefethen maps)",
+        "complete product of 26 rule classes x every n (both parities; quick 1..41, thorough 1..128, plus -1/0/1 and even n for odd-only rules) x extra-parameter alphabets x every polynomial degree 0..nominal, against exact moments and multiprecision re-typed closed-form definitions (weights = step x mp.diff of the node map; g'(x_i) w_i for the Trefethen maps); declared domain of every class against the interval its definition lives on; per-weight relative tolerance for rules whose weights span many orders of magnitude",
         "All sizes up to the bound and all degrees up to the nominal one are enumerated (thorough 1.1e6 comparisons), so parity-dependent and size-dependent slips (series truncation, halved end weights, sign patterns) are decided for every n up to 128 rather than at n=10.",
         "Gauss nodes come from NumPy/SciPy root finders (tolerance 1e5 eps x natural scale, others 1e4 eps); parameter combinations whose defining node map is not representable in float64 are inadmissible (counted, named in the evidence).",
         "DESIGN.md 3/C01",
     ),
     "C17": (
         "exploration",
-        "complete product exponent lattice (41 values over 10 decades) x radius lattice (23 values incl. 0, both sides of the 1e-12 switch, 1e8, inf) x {s,p} x {normalised, not} against the Coulomb integral of the documented density evaluated with multiprecision incomplete gamma functions; all (K_s,K_p) configurations of the multi-centre routine; every element 1..118 x 5 spellings through the loader",
+        "complete product exponent lattice (41 values over 10 decades) x radius lattice (23 values incl. 0, both sides of the 1e-12 switch, 1e8, inf) x {s,p} x {normalised, not} against the Coulomb integral of the documented density evaluated with multiprecision incomplete gamma functions; all (K_s,K_p) configurations of the multi-centre routine for three placements (near the origin, 1e4 bohr away with tight exponents, distinct centres that agree to 1e-6) with correctly rounded reference distances; every element 1..118 x 5 spellings through the loader",
         "Every lattice combination is evaluated (about 5e3 comparisons), including both limit branches and the large-r charge limit; the oracle is an independent derivation (radial Coulomb integrals), validated at start-up against numerical quadrature and the radial Poisson equation. The loader's call histories are explored under C19.",
         "mpmath gammainc at 30 digits; relative tolerance 1e-11; VERIF_SEED perturbs exponents and radii inside their lattice cells.",
         "DESIGN.md 3/C17",
     ),
     "C08": (
         "exploration",
-        "complete product structured angle lattice (8 azimuths x 6 principal + 3 non-principal polar angles incl. both poles and a near-pole angle) x every (l,m) <= l_max for both implementations and both angular derivatives, against a multiprecision definition oracle (exact Legendre coefficients, mp.diff), a float64 recursion oracle at l_max up to 200, the addition theorem on all ordered direction pairs, Cartesian closed forms and coordinate round trips",
+        "complete product structured angle lattice (8 azimuths x 6 principal + 3 non-principal polar angles incl. both poles and a near-pole angle) x every (l,m) <= l_max for both implementations and both angular derivatives, against a multiprecision definition oracle (exact Legendre coefficients, mp.diff), a float64 recursion oracle at l_max up to 200, the addition theorem on all ordered direction pairs, Cartesian closed forms and coordinate round trips; every maximum degree 0..8 as leading block of the l_max=12 output for all four routines; both derivatives at degree 40 (exact partner relation for the azimuth, central differences of the oracle for the polar angle); in-place refill histories",
         "Every (l,m) parity/sign/ordering combination up to l=12 (thorough 24) is compared at angles chosen from the branch structure (poles, equator, negative and >2pi azimuths), and all rows up to l=200 against an independent recursion, so a slip affecting one parity, one order or high degree only is decided, not sampled.",
-        "Definition enforced on polar angle in [0,pi] (all azimuths); outside only agreement of the two implementations and derivative-consistency are required; at the poles only finiteness of the polar derivative (documented convention).",
+        "Definition enforced on polar angle in [0,pi] (all azimuths); outside it the recursion-based routine is held to the harmonic of the direction (analytic continuation), the SciPy-based one to agreement with it (recorded finding: opposite sign for odd m); at the poles only finiteness of the polar derivative (documented convention).",
         "DESIGN.md 3/C08",
     ),
     "C18": (
         "exploration",
-        "complete product of domain counts 1..3 x every grid-size tuple over 1..4 (thorough 1..5) x point dimensionality pattern x list/repeated mode x 3 integrands x vectorised/point-by-point x every chunk size 1..size+1, against nested-loop product quadrature; generators compared element-wise with itertools.product order, enumerated twice and interleaved",
+        "complete product of domain counts 1..3 x every grid-size tuple over 1..4 (thorough 1..5) x point dimensionality pattern x list/repeated mode x 3 integrands x vectorised/point-by-point x every chunk size 1..size+1, against nested-loop product quadrature; generators compared element-wise with itertools.product order, enumerated twice and interleaved; other grid classes as domains (library 1-D rules, atomic grid, 2-D uniform grid), one object listed two and three times, a product above the default chunk length",
         "Chunk-size independence and route equality are decided for every chunking of every small product grid (about 1e4 integrals quick), including chunk sizes that do not divide the total and size-1 grids; generator alignment is checked by interleaved consumption.",
         "Plain nested loops in float64 as reference (tolerance 1e-12 of sum|w f|); grids of up to 5 nodes per domain.",
         "DESIGN.md 3/C18",
     ),
     "C14": (
         "exploration",
-        "complete product grid (1-D, 2-D, 3-D point sets, atomic grid) x moment type x maximal order 0..L x 1..3 centres (incl. a grid point) x function-value basis (unit vectors + two smooth arrays; the map is linear) x return_orders x integer type of the order, against direct sums with an independently generated Horton order list and solid harmonics from the independent recursion oracle",
+        "complete product grid (1-D, 2-D, 3-D point sets, atomic grid; the inherited method on rotated atomic, molecular, uniform, tensor, angular, local and periodic grids) x moment type x maximal order 0..L x 1..3 centres (incl. a grid point and the atomic grid's own centre) x function-value basis (unit vectors + two smooth arrays; the map is linear) x return_orders x integer type of the order, against direct sums with an independently generated Horton order list and solid harmonics from the independent recursion oracle",
         "Every row of every order up to the bound is compared for every centre and basis function (4.8e4 entries quick), so (l,m)->row and (n,l,m)->row bookkeeping, multi-centre stacking and the 1-D/2-D order generators are decided for all orders up to L.",
         "Linearity in the function values makes the unit-vector basis decide all value arrays; tolerance 1e-11 of sum|w f basis|; orders up to 6 (thorough 8).",
         "DESIGN.md 3/C14",
     ),
     "C13": (
         "exploration",
-        "seven exhaustive sub-spaces: every flat index / coordinate tuple of all shapes {2..5}^2 u {2..4}^3; point layout for axes menus x shapes and all ordered pairs/triples of four 1D grids; 5 weight schemes x 2 dims x 6 shapes x 2 axes; 8 molecules x spacing x extension x rotate; query-point lattices for closest_point vs brute-force argmin; cube-file round trips in both unit conventions; cubic interpolation of the 64 monomials x^a y^b z^c (a,b,c<=3, a basis by linearity) x derivative orders on two grids, log variant, trilinear functions",
+        "seven exhaustive sub-spaces: every flat index / coordinate tuple of all shapes {2..5}^2 u {2..4}^3; point layout for axes menus x shapes and all ordered pairs/triples of four 1D grids; 5 weight schemes x 2 dims x 6 shapes x 2 axes; 8 molecules x spacing x extension x rotate; query-point lattices for closest_point vs brute-force argmin; cube-file round trips in both unit conventions; cubic interpolation of the 64 monomials x^a y^b z^c (a,b,c<=3, a basis by linearity) x derivative orders on two grids, log variant (cubic, linear, nearest), trilinear functions incl. outer cells, a grid with 5 and 6 nodes along two axes (recorded finding), shapes up to 30^3 / 64 x 25 for the weight-sum bound, refill histories",
         "Each sub-space is finite and enumerated completely (3.4e4 comparisons quick; thorough adds all 64 derivative orders), so stride arithmetic, meshgrid ordering, kron order and every weight scheme in both dimensions are decided for non-cubic shapes and skewed/negative axes.",
-        "Cubic-spline reproduction of cubics needs >= 4 interior nodes per axis; cube precision = printed precision; closest_point only for diagonal axes (documented) and queries within half a step of the box.",
+        "Cubic-spline reproduction on axes with fewer than 7 nodes is the recorded finding 'short-axis'; cube precision = printed precision; closest_point only for diagonal axes (documented) and queries within half a step of the box.",
         "DESIGN.md 3/C13",
     ),
     "C06": (
         "exploration",
-        "product atom count 1..6 x element assignments over 8 elements (all for <=3 atoms, <=2 deviations from homonuclear above; incl. elements needing the first and second radius fallback) x 3 geometries x switching order 1..5 x 5 segmentations of a structured point set (nuclei, bond midpoints, bond extensions, near, far), every evaluation route compared point by point with a plain-loop reference written from Becke's definition; 24 cube rotations x 2 translations and atom permutations; Hirshfeld share vs pro-atom files read directly",
+        "product atom count 1..6 x element assignments over 8 elements (all for <=3 atoms, <=2 deviations from homonuclear above; incl. elements needing the first and second radius fallback) x 3 geometries x switching order 1..5 x 5 segmentations of a structured point set (nuclei, bond midpoints, bond extensions, near, far), every evaluation route compared point by point with a plain-loop reference written from Becke's definition; explicit atom-per-sector lists (reversed, rotated, proper sub-list, NumPy integers) on both segment-wise routes; 9-18 atoms with few points (chunk length floored at one); 24 cube rotations x 2 translations and atom permutations; one instance with point / coordinate arrays refilled in place; Hirshfeld share vs pro-atom files read directly",
         "Every discrete branch combination (chunk count 1..4, chunk edges inside/on/between segments, empty segments, clipped and unclipped heteronuclear shifts, both fallbacks) is enumerated (2.5e6 weights quick); partition-of-unity facts are properties of the reference itself, so agreement to 1e-13 transfers them to all routes.",
         "Reference = Becke 1988 with |a| clipped at 0.45 and the documented fallback; VERIF_SEED jitters coordinates by <= 0.03 bohr.",
         "DESIGN.md 3/C06",
     ),
     "C05": (
         "exploration",
-        "product of 4 radial grids (with/without an r=0 node) x all per-shell degree sequences over a 3-degree alphabet per method (complete for lengths 3-4, deviation-bounded for 5-6; thorough complete) x 4 methods x 2 centres x 4 rotation seeds, every shell compared with centre + r_i x (unit angular grid x recovered orthogonal matrix) and w_i r_i^2 x angular weights; factorised integrals of 3 radial shapes x all (l,m) <= min degree; all sector placements for from_pruned; all 17 presets x every tabulated element (1374 pairs) against the raw .npz tables",
+        "product of 4 radial grids (with/without an r=0 node) x all per-shell degree sequences over a 3-degree alphabet per method (complete for lengths 3-4, deviation-bounded for 5-6; thorough complete) x 4 methods x 2 centres x 6 rotation seeds (incl. NumPy integers), one- and two-shell radial grids, documented argument forms (single degree / size broadcast, arrays, sizes over degrees, default), every shell compared with centre + r_i x (unit angular grid x recovered orthogonal matrix) and w_i r_i^2 x angular weights; factorised integrals of 3 radial shapes x all (l,m) <= min degree; all sector placements for from_pruned (also with centre, seed and array arguments, compared with the plain constructor); all 17 presets x every tabulated element (1374 pairs) against the raw .npz tables, and for a subset of elements with centre, seed and each of the four methods",
         "Every (shell, angular node) pair of every configuration is tied to its definition (3.9e5 identities quick), for every degree sequence of the alphabet rather than three or four configurations; presets are enumerated completely.",
         "Unit angular grids come from AngularGrid(cache=False) (decided by C02/C12); exact ties of a radial node with a sector boundary are accepted either way (docstring ambiguous); Ahrens-Beylkin degrees with defective data files are kept out of the alphabet.",
         "DESIGN.md 3/C05",
     ),
     "C07": (
         "exploration",
-        "deviation-bounded product (bound 2 quick / 3 thorough) of molecule (1-4 atoms) x constructor (direct, from_size, from_preset, from_pruned) x radial spec (one grid, per-atom list, per-element dict, default) x aim weights (Becke, Hirshfeld, array) x store x rotate, each molecular grid compared array by array with atomic grids built by hand from the same arguments and aim weights evaluated by the check; every configuration paired with its store on/off partner; complete product 17 presets x 8 molecules x 5 exponents for the end-to-end charge clause",
+        "deviation-bounded product (bound 2 quick / 3 thorough) of molecule (1-4 atoms) x constructor (direct, from_size, from_preset, from_pruned) x radial spec (one grid, per-atom list, per-element dict, default) x aim weights (Becke, Hirshfeld, array) x store x rotate, each molecular grid compared array by array with atomic grids built by hand from the same arguments and aim weights evaluated by the check; every configuration paired with its store on/off partner; 16 documented argument forms of the convenience constructors (single number for radius / d_sectors / s_sectors, arrays, other sizes, list of presets, omitted seed and weights); explicit-state exploration of accessor orders (item / get_atomic_grid) on one instance; complete product 17 presets x 8 molecules x 5 exponents for the end-to-end charge clause",
         "All option combinations within the deviation bound are enumerated (about 300 grids, every array compared exactly), so argument fan-out of each classmethod (rotate, store, per-atom lists, dict keyed by atomic number) is decided; the end-to-end clause is a complete product over its alphabet.",
         "AtomGrid and Becke/Hirshfeld are decided by C05/C06. The 1% clause applies literally (rgrid=None) to sector-radius presets; shell-count presets prescribe a radial size the default grid never has (rgrid=None is refused), they are built with the default kind at the prescribed size and held to a 10% sanity bound only (observed errors in the evidence).",
         "DESIGN.md 3/C07",
     ),
     "C11": (
         "exploration",
-        "complete product point dimension 1..3 x lattice menu (0..dim vectors: orthogonal, skewed, negative, long/short, non-unit and negative in 1-D) x wrap x point set (inside / outside / on the cell boundary) x 5 centres x 5 radii (0, small, > cell, 2.7 cell, empty), every query compared as a multiset of (parent index, position) with brute-force enumeration of all lattice translations in a generous box",
+        "complete product point dimension 1..3 x lattice menu (0..dim vectors: orthogonal, skewed, negative, long/short, non-unit and negative in 1-D) x wrap x point set (inside / outside / on the cell boundary) x 5 centres x 5 radii (0, small, > cell, 2.7 cell, empty), every query compared as a multiset of (parent index, position) with brute-force enumeration of all lattice translations in a generous box; exact dyadic sub-spaces (1-D: any sign; 2-D / 3-D: eight orthogonal lattices) where an image exactly on the sphere is decidable and nothing is a tie; explicit-state exploration (8 worlds, depth 3 / 4) of histories of queries, reassignment of weights and points and in-place edits of the handed-out local grid",
         "Completeness and no-duplication of the image enumeration are decided for every cell shape / centre / radius combination of the alphabet (2.8e3 queries), including spheres larger than the cell and spheres without any image; wrapping is checked against the caller's array and the [0,1) range.",
         "Images within 1e-12*(1+r) of the sphere surface (incl. exact coincidence at radius 0) are ties, excluded and counted; the brute-force box uses the plane-spacing bound with a margin of 2 cells.",
         "DESIGN.md 3/C11",
     ),
     "C09": (
         "exploration",
-        "product of atomic grids (2 radial grids incl. an r=0 node x uniform/mixed degrees x 4 methods x centre x rotation) x basis functions r^l h_k(r) Y_lm for all l <= min degree/2 and 3 radial shapes (linearity makes the basis decide the span) x structured evaluation points, against the independent harmonic oracle and 6th-order differences of the same interpolant; explicit-state exploration of all call orders up to length 3 of the four routines sharing the lazy basis on one instance vs fresh instances",
+        "product of atomic grids (2 radial grids incl. an r=0 node x uniform/mixed degrees x 4 methods x centre x rotation) x basis functions r^l h_k(r) Y_lm for all l <= min degree/2 (every (l,m): per configuration in the thorough tier, as a union over the configurations in the quick tier) and 3 radial shapes (linearity makes the basis decide the span) x structured evaluation points, against the independent harmonic oracle and 6th-order differences of the same interpolant; explicit-state exploration of all call orders up to length 3 of the four routines sharing the lazy basis on one instance vs fresh instances",
         "Every (l,m) component is recovered separately on every grid configuration (1.4e4 comparisons quick), for rotated and off-origin grids; self-consistency of Cartesian, spherical and radial derivatives is checked against the same callable; the history clause is an exhaustive search over call orders.",
         "Relies on angular exactness (C02). Derivatives are compared inside one spline interval; the centre itself is excluded from gradient checks (the spline-times-harmonic interpolant has a cusp there).",
         "DESIGN.md 3/C09",
     ),
     "C15": (
         "exploration",
-        "product order {1,2,3} x 3 coefficient sets (constants, callables, mixed) x 3 manufactured solutions (right-hand side derived symbolically) x 19 transform settings (none, identity, 7 inverse maps, Power/Exp/LinearInfinite, 6 forward maps on an interval in (-1,1)) x {IVP x 5 methods, BVP x 3 boundary forms x initial guess} x no_derivatives, each solve compared on 9 points with the closed-form solution and its derivatives with respect to the original variable",
+        "product order {1,2,3} x 4 coefficient sets (constants, callables, mixed, all lower-order coefficients zero) x 3 manufactured solutions (right-hand side derived symbolically) x 25 transform settings (none, identity, 7 inverse maps, Power/Exp/LinearInfinite and their inverses, Hyperbolic and its inverse, 6 forward maps on an interval in (-1,1)) x {IVP x 5 methods, BVP x 3 boundary forms x initial guess} x no_derivatives, each solve compared on 9 points with the closed-form solution and its derivatives with respect to the original variable",
         "Every order/transform/solver combination of the alphabet is solved (2.6e3 solves quick, about 1e4 thorough), so each Bell-polynomial coefficient, the mapping of initial data and of returned derivatives, and every transform's deriv/deriv2/deriv3 are exercised at third order with non-trivial k and m.",
-        "Tolerance 200 x the requested solver tolerance (x50 for the lower-order IVP methods); decreasing maps are inadmissible for the BVP solver (SciPy rejects a decreasing mesh), clean non-convergence is inadmissible; the random default initial guess is seeded.",
+        "Tolerance 200 x the requested solver tolerance (x50 for the lower-order IVP methods); decreasing maps are inadmissible for the BVP solver (SciPy rejects a decreasing mesh), every problem of the alphabet converges on the unchanged tree, so a solver that gives up is a violation, as is a solve exceeding 120 s of CPU time; the random default initial guess is seeded.",
         "DESIGN.md 3/C15",
     ),
     "C16": (
         "exploration",
-        "product / deviation-bounded product of a Gaussian density basis (3 exponents x centred / two displacement directions) x angular degree x solver options (boundary value given or computed, origin node, removal of large radii, transform variants incl. a Laguerre grid) for the boundary-value solver, linear combinations, the initial-value solver, the Laplacian interpolant, the robust solver on the shipped core models (exact-cancellation case per element) and core+smooth densities with and without the second split; thorough adds two-centre molecular grids",
+        "product / deviation-bounded product of a Gaussian density basis (3 exponents x centred / two displacement directions) x angular degree x solver options (boundary value given or computed, origin node, removal of large radii, transform variants incl. a Laguerre grid) for the boundary-value solver, linear combinations, the initial-value solver, the Laplacian interpolant, the robust solver on the shipped core models (exact-cancellation case per element) and core+smooth densities with and without the second split; homogeneity V[s rho] = s V[rho] for s = 1e-10 .. 1e5, robust against plain solver on a smooth density, two stretched two-centre molecular grids (thorough: two more)",
         "Every option combination within the deviation bound is solved and compared at near / far / on-axis / generic points with the analytic Coulomb potential (factor, sign, boundary-value and recombination errors are far above the 1e-3 bound; observed errors 1e-5..4e-4 are in the evidence); linearity is checked to 1e-4 (observed 5e-9).",
         "Accuracy bounds are the advertised ones (1e-3 BVP, 1e-2 IVP), so a gradual loss of accuracy below them is not decided; exact grid centres are excluded (documented u(0)=0 convention); with include_origin=False only points beyond 1 bohr are compared (documented caveat).",
         "DESIGN.md 3/C16",
     ),
     "C20": (
         "exploration",
-        "catalogue of 185 call specifications covering the public callables that take arrays / lists / dicts / callbacks (coverage by introspection reported in the evidence) x aliasing patterns (fresh, all arrays write-protected, the same array for two parameters, callbacks returning their own argument, callbacks returning a cached write-protected array) with byte-wise before/after snapshots and a differential result oracle; all ordered pairs of calls inside 22 families sharing their argument objects (936 two-call programs)",
+        "catalogue of 219 call specifications covering the public callables that take arrays / lists / dicts / callbacks (coverage by introspection reported in the evidence) x aliasing patterns (fresh, all arrays write-protected, the same array for two parameters, callbacks returning their own argument, callbacks returning a cached write-protected array) with byte-wise before/after snapshots and a differential result oracle; all ordered pairs of calls inside 22 families sharing their argument objects (two-call programs; three-call programs in the thorough tier); 46 operations driven into a documented error (rejected argument, solver giving up, user callback raising part-way) with fresh and write-protected arguments; library objects passed in are snapshotted through their public data attributes; inputs that are views of each other",
         "Every catalogued call is executed under every applicable aliasing pattern and every ordered pair of calls in a family is executed on shared argument objects, so in-place updates of inputs, option dictionaries and callback results are decided for the whole catalogue rather than for the temporaries the suite passes.",
-        "Byte-wise snapshots cannot see a mutation that is undone before the call returns; catalogue completeness is by introspection plus hand-written argument factories (uncovered callables are listed in the evidence); file-writing calls (save, generate_cube) are exercised under C13 only.",
+        "Byte-wise snapshots cannot see a mutation that is undone before the call returns; catalogue completeness is by introspection plus hand-written argument factories (uncovered callables are listed in the evidence); file-writing calls go to a temporary directory that is removed.",
         "DESIGN.md 3/C20",
     ),
 }
